@@ -44,12 +44,15 @@ theorem distinct_append {l₁ l₂ : List String} (h1 : distinct l₁ = true) (h
     simp only [List.cons_append, distinct_cons, List.mem_append, not_or]
     exact ⟨⟨h1.1, hd a (List.mem_cons_self ..)⟩, ih h1.2 fun x hx => hd x (List.mem_cons_of_mem _ hx)⟩
 
-theorem srcs_synthV (env : Env) (cx : PCtx) (k : SKw) (kids : Kids) :
+theorem srcs_synthV (env : Env) (cx : PCtx) (k : SKw) (kids : Kids)
+    (hne : ∀ n ∈ k.required.getD [], n ≠ "") :
     srcs (synthV env cx k kids) = synthNames (k.required.getD []) kids.props := by
   unfold srcs synthV
   rw [List.map_map]
   conv => rhs; rw [← List.map_id (synthNames _ _)]
-  rfl
+  apply List.map_congr_left
+  intro n hn
+  exact src_synthKey cx n (hne n (mem_synthNames.mp hn).1)
 
 theorem setup_class {env : Env} {cx : PCtx} {k : SKw} {kids : Kids} {σ : D6.SSub}
     (K : KidsRel env kids σ) (N : NodeOK cx k kids σ) (hobj : typeHasObject k = true) (kw : Kw)
@@ -60,17 +63,18 @@ theorem setup_class {env : Env} {cx : PCtx} {k : SKw} {kids : Kids} {σ : D6.SSu
     (hb : kw.addPropsB = kids.addProps.2) :
     ObjSetup env kw sub σ (declared env cx k kids) (synthV env cx k kids) where
   split := by rw [hprops]; exact accProps_class env cx k kids σ N
-  decl := props_rel K.props
+  decl := props_rel K.props N.propsNonempty'
   dist := by
+    have hr : ∀ n ∈ k.required.getD [], n ≠ "" := fun n hn => N.nonempty n (List.mem_append_right _ hn)
     unfold srcs
     rw [List.map_append]
     apply distinct_append
-    · have := srcs_declared env cx k kids; unfold srcs at this; rw [this]; exact N.propNames
-    · have := srcs_synthV env cx k kids; unfold srcs at this; rw [this]
+    · have := srcs_declared env cx k kids N.propsNonempty; unfold srcs at this; rw [this]; exact N.propNames
+    · have := srcs_synthV env cx k kids hr; unfold srcs at this; rw [this]
       exact distinct_filter _ N.req
     · intro x hx hx2
-      have h1 := srcs_declared env cx k kids; unfold srcs at h1; rw [h1] at hx
-      have h2 := srcs_synthV env cx k kids; unfold srcs at h2; rw [h2] at hx2
+      have h1 := srcs_declared env cx k kids N.propsNonempty; unfold srcs at h1; rw [h1] at hx
+      have h2 := srcs_synthV env cx k kids hr; unfold srcs at h2; rw [h2] at hx2
       exact (mem_synthNames.mp hx2).2 hx
   synth := by
     intro p hp a
@@ -152,7 +156,8 @@ theorem required_lenient {env : Env} {cx : PCtx} {k : SKw} {kids : Kids} {σ : D
       | false =>
         have hmem : kv.1 ∈ (((declared env cx k kids ++ synthV env cx k kids).map fun q => (q.1, q.2.1)).filter
             fun p => p.1.required && p.2.isNone).map fun p => p.1.src := by
-          refine List.mem_map.mpr ⟨(mkKey cx (k.required.getD []) kv.1, kv.2.kw.default), ?_, rfl⟩
+          refine List.mem_map.mpr ⟨(mkKey cx (k.required.getD []) kv.1, kv.2.kw.default), ?_,
+            src_mkKey cx _ kv.1 (N.propsNonempty' kv hkv)⟩
           refine List.mem_filter.mpr ⟨?_, ?_⟩
           · refine List.mem_map.mpr ⟨(mkKey cx (k.required.getD []) kv.1, kv.2.kw.default, kv.2.acc env), ?_, rfl⟩
             exact List.mem_append_left _ (List.mem_map.mpr ⟨kv, hkv, rfl⟩)
@@ -163,7 +168,8 @@ theorem required_lenient {env : Env} {cx : PCtx} {k : SKw} {kids : Kids} {σ : D
     · have hs : n ∈ synthNames (k.required.getD []) kids.props := mem_synthNames.mpr ⟨hn, hdecl⟩
       have hmem : n ∈ (((declared env cx k kids ++ synthV env cx k kids).map fun q => (q.1, q.2.1)).filter
           fun p => p.1.required && p.2.isNone).map fun p => p.1.src := by
-        refine List.mem_map.mpr ⟨(synthKey cx n, none), ?_, rfl⟩
+        refine List.mem_map.mpr ⟨(synthKey cx n, none), ?_,
+          src_synthKey cx n (N.nonempty n (List.mem_append_right _ hn))⟩
         refine List.mem_filter.mpr ⟨?_, by simp [synthKey]⟩
         refine List.mem_map.mpr ⟨(synthKey cx n, none, Elem.trivial.acc env), ?_, rfl⟩
         exact List.mem_append_right _ (List.mem_map.mpr ⟨n, hs, rfl⟩)
@@ -179,7 +185,9 @@ theorem required_lenient {env : Env} {cx : PCtx} {k : SKw} {kids : Kids} {σ : D
       have hspec := hs kv.1 hq2.1
       simp only [Bool.or_eq_true] at hspec
       rcases hspec with h | h
-      · simpa [Key.src, mkKey] using h
+      · show (JVal.keys kvs).contains (mkKey cx (k.required.getD []) kv.1).src = true
+        rw [src_mkKey cx _ kv.1 (N.propsNonempty' kv hkv)]
+        exact h
       · exfalso
         obtain ⟨e, he, hdef⟩ := (spec_waived_iff K N.propNames kv.1).mp h
         have : kv.2 = e := mem_unique N.propNames (by exact hkv) he
@@ -191,7 +199,9 @@ theorem required_lenient {env : Env} {cx : PCtx} {k : SKw} {kids : Kids} {σ : D
       have hspec := hs n hn'.1
       simp only [Bool.or_eq_true] at hspec
       rcases hspec with h | h
-      · simpa [Key.src, synthKey] using h
+      · show (JVal.keys kvs).contains (synthKey cx n).src = true
+        rw [src_synthKey cx n (N.nonempty n (List.mem_append_right _ hn'.1))]
+        exact h
       · exfalso
         obtain ⟨e, he, _⟩ := (spec_waived_iff K N.propNames n).mp h
         exact hn'.2 (List.mem_map.mpr ⟨(n, e), he, rfl⟩)
